@@ -27,6 +27,7 @@ EXPLANATION = (
     "result is written back only under its own converged test. R-C06-5: parity typing - extended Neuber residuals are odd, "
     "Seeger-Beste residuals even under (stress, load) -> (-stress, -load), start values odd: the law is odd. R-C06-6: every "
     "write to E/K/n outside the constructor is followed on every path by a rebuild of the cached Ramberg-Osgood object. "
+    "R-C06-10: a position obtained from enumerate() never subscripts an argument as given (label look-up on a Series). "
     "R-C06-7: helpers duplicated across the two law classes are identical, each secondary-branch helper is its primary "
     "sibling under the Masing substitution (strain -> delta_strain, ...), and the two copies of the base class agree.")
 EXPLANATION += (" R-C06-8: the fprime handed to Newton equals d func / d unknown in normal form (symbolic differentiation, calls on the cached Ramberg-Osgood object evaluated on that class with the law's E, K, n; positive branch, the negative one follows from parity and the pole guards); every where= mask of a quotient excludes exactly its pole; the Ramberg-Osgood object is built from (E, K, n) in that order.")
@@ -39,8 +40,73 @@ DIRS = {"stress": ("stress", "load"), "load": ("load", "stress"),
 
 
 def run(ctx):
-    for r in (_wiring, _inverse, _convergence, _parity_rule, _cache, _siblings, _derivatives, _zero_load):
+    for r in (_wiring, _inverse, _convergence, _parity_rule, _cache, _siblings, _derivatives, _zero_load, _positions):
         ctx.attempt(r)
+
+
+def _positional_subscripts_of_params(fn_node, params):
+    """P[i] where P is a parameter as given (not converted to an array) and i a position from enumerate(): for a Series
+    argument that is a label look-up"""
+    pos = set()
+    for n_ in ast.walk(fn_node):
+        gens = []
+        if isinstance(n_, ast.For):
+            gens.append((n_.target, n_.iter))
+        if isinstance(n_, (ast.ListComp, ast.GeneratorExp, ast.SetComp)):
+            gens += [(g_.target, g_.iter) for g_ in n_.generators]
+        for tgt, it_ in gens:
+            if isinstance(it_, ast.Call) and call_name(it_) == "enumerate" and isinstance(tgt, ast.Tuple) and tgt.elts and \
+                    isinstance(tgt.elts[0], ast.Name):
+                pos.add(tgt.elts[0].id)
+    # lists of positions and the loop variables that run over them
+    lists = set()
+    for _ in range(2):
+        for n_ in ast.walk(fn_node):
+            if isinstance(n_, ast.Assign) and isinstance(n_.targets[0], ast.Name) and isinstance(n_.value, (ast.ListComp, ast.GeneratorExp)) \
+                    and isinstance(n_.value.elt, ast.Name) and n_.value.elt.id in pos:
+                lists.add(n_.targets[0].id)
+            if isinstance(n_, ast.For) and isinstance(n_.target, ast.Name) and isinstance(n_.iter, ast.Name) and n_.iter.id in lists:
+                pos.add(n_.target.id)
+            if isinstance(n_, ast.For) and isinstance(n_.target, ast.Name) and isinstance(n_.iter, (ast.ListComp, ast.GeneratorExp)) and \
+                    isinstance(n_.iter.elt, ast.Name) and n_.iter.elt.id in pos:
+                pos.add(n_.target.id)              # the list of positions written in place
+    rebound = {t_.id for n_ in ast.walk(fn_node) if isinstance(n_, ast.Assign) for t_ in n_.targets if isinstance(t_, ast.Name)}
+    out = []
+    for n_ in ast.walk(fn_node):
+        if isinstance(n_, ast.Subscript) and isinstance(n_.value, ast.Name) and n_.value.id in params and n_.value.id not in rebound \
+                and isinstance(n_.slice, ast.Name) and n_.slice.id in pos and isinstance(n_.ctx, ast.Load):
+            out.append(n_)
+    return out
+
+
+def _positions(ctx):
+    """R-C06-10: the per-element retry addresses the elements by position.  A position may subscript an array (np.asarray of the
+    argument, a solver result) but not the argument itself: for a Series - what the binned law passes, labelled 1..N - `x[i]` is
+    a label look-up and returns the neighbouring element's value (or raises)."""
+    prog = ctx.prog
+    ctx.rule("R-C06-10", floor=1, what="positions from enumerate() never subscript a possibly labelled argument directly")
+    n = 0
+    for ck in (EN, SB):
+        ci = prog.cls(ck)
+        for name, defs in ci.methods.items():
+            fi = defs[-1]
+            if not any(isinstance(c_, ast.Call) and call_name(c_) == "enumerate" for c_ in ast.walk(fi.node)):
+                continue
+            n += 1
+            params = [q for q in fi.params if q != "self"]
+            bad = _positional_subscripts_of_params(fi.node, params)
+            for b_ in bad:
+                ctx.violated(fi, b_, "%s.%s subscripts its argument %s with the position %s: for a Series argument (the binned law "
+                             "passes one labelled 1..N) that is a label look-up - the retry then solves for a neighbouring element's "
+                             "load" % (ci.name, name, b_.value.id, b_.slice.id), text="positional %s" % b_.value.id)
+            if not bad:
+                ctx.holds(fi, fi.node, "%s.%s: positions subscript arrays only" % (ci.name, name))
+    ex = ast.parse("def f(self, res, load, x0):\n    bad = [i for i, ok in enumerate(res[1]) if not ok]\n    la = np.asarray(load)\n"
+                   "    for i in bad:\n        a = la[i]\n        b = x0[i]\n        res[0][i] = a\n").body[0]
+    if [norm_text(x_) for x_ in _positional_subscripts_of_params(ex, ["res", "load", "x0"])] != ["x0[i]"]:
+        raise AnalysisError("R-C06-10 built-in example not matched")
+    if n == 0:
+        raise AnalysisError("no per-element loop found in the law classes")
 
 
 RO_ATTR = "_ramberg_osgood_relation"
